@@ -111,6 +111,19 @@ def _cfg_pair(dim):
     return [{dim: [_ins(a, 1, "top"), _ins(b, 2, 2)]} for a in SMALL for b in SMALL]
 
 
+def _cfg_nets(dim):
+    """two or three plain subtotals on one dimension, one of them spanning every category: residuals and
+    pairwise tests of the OTHER subtotals must still be those of the merged category"""
+    nets = [([1, 2, 3], []), ([1, 2], []), ([2, 3], []), ([1, 3], [])]
+    out = []
+    for a in nets:
+        for b in nets:
+            if a != b:
+                out.append({dim: [_ins(a, 1, "top"), _ins(b, 2, 2)]})
+    out.append({dim: [_ins(nets[1], 1, "top"), _ins(nets[0], 2, "bottom"), _ins(nets[2], 3, 1)]})
+    return out
+
+
 def _cfg_both():
     return [{"rows": [_ins(a, 1, 1)], "cols": [_ins(b, 1, "top")]} for a in SMALL for b in SMALL]
 
@@ -151,6 +164,8 @@ SPACES = {
     "repeat_strand": ("cat_1d", _cfg_repeats("rows"), 2, 4),
     "repeat_wave_rows": ("date_x_cat", _cfg_repeats("rows"), 2, 3),
     "pair_rows_cat_x_cat": ("cat_x_cat", _cfg_pair("rows"), 1, 2),
+    "nets_rows": ("cat_x_cat", _cfg_nets("rows"), 2, 3),
+    "nets_cols": ("cat_x_cat_T", _cfg_nets("cols"), 2, 3),
     "pair_strand": ("cat_1d", _cfg_pair("rows"), 2, 3),
     "both_cat3_x_cat3": ("cat3_x_cat3", _cfg_both(), 1, 2),
     "wave_rows": ("date_x_cat", _cfg_single("rows"), 1, 2),
@@ -406,8 +421,12 @@ def check(space, state):
         _check_differences(T, part, orc, rs, cs, spos_r, spos_c, bpos_r, bpos_c, date_r, date_c)
 
     # ---------------------------------------------------------------- 3. merge equivalence
-    if not sch.numeric and len(rs) + len(cs) == 1:
-        _check_merge(T, sch, data, cfg, part, orc, rs, cs, spos_r, spos_c, bpos_r, bpos_c)
+    if not sch.numeric:
+        # every plain subtotal of the lists, whatever else is inserted next to it
+        for k in range(len(rs)):
+            _check_merge(T, sch, data, cfg, part, orc, rs, cs, spos_r, spos_c, bpos_r, bpos_c, True, k)
+        for k in range(len(cs)):
+            _check_merge(T, sch, data, cfg, part, orc, rs, cs, spos_r, spos_c, bpos_r, bpos_c, False, k)
 
     return Res(T.v, nontrivial, digest(space, state[1], arr_bytes(part.counts, part.unweighted_counts)), T.asserted)
 
@@ -484,11 +503,10 @@ def _rank_ok(orc):
     return bool(m) and bool(m[0]) and rank_rational(m) >= 2
 
 
-def _check_merge(T, sch, data, cfg, part, orc, rs, cs, spos_r, spos_c, bpos_r, bpos_c):
+def _check_merge(T, sch, data, cfg, part, orc, rs, cs, spos_r, spos_c, bpos_r, bpos_c, on_rows, k):
     """A plain subtotal must equal, measure by measure, the category obtained by merging
     its addends in the data (second run of the library on recoded respondents)."""
-    on_rows = bool(rs)
-    ins, add, sub = (rs or cs)[0]
+    ins, add, sub = (rs if on_rows else cs)[k]
     if sub or not add:
         return
     axis = orc.rows if on_rows else orc.cols
@@ -503,7 +521,7 @@ def _check_merge(T, sch, data, cfg, part, orc, rs, cs, spos_r, spos_c, bpos_r, b
     p2 = cube2.partitions[0]
     orc2 = partition_oracles(sch, data2)[0][2]
     k0 = add[0]
-    pos = (spos_r if on_rows else spos_c)[0]
+    pos = (spos_r if on_rows else spos_c)[k]
     others_r = list(range(len(orc.rows))) if not on_rows else None
     # columns/rows to compare along: all base elements of the opposing dimension
     for name in M2D:
